@@ -37,6 +37,10 @@ type GraphBinCase struct {
 	GlobDep []bool   `json:"glob_dep,omitempty"`
 	Makes   []bool   `json:"makes,omitempty"`
 	Prior   []string `json:"prior,omitempty"`
+	// Saboteur (0 = none, else task index + 1): that task's command removes the .spok directory while
+	// the run is under way. spok may then stop with an error about its cache; whatever it does, no task
+	// runs twice and no dependent runs before its dependency.
+	Saboteur int `json:"saboteur,omitempty"`
 }
 
 var gbNames = []string{"alpha", "bravo", "charlie", "delta"}
@@ -69,8 +73,11 @@ func (c GraphBinCase) source() string {
 			}
 		}
 		make := ""
+		if c.Saboteur == i+1 {
+			make = "    rm -rf \"$P/.spok\"\n"
+		}
 		if i < len(c.Makes) && c.Makes[i] {
-			make = fmt.Sprintf("    echo made-by-%d > \"$P/made%d.txt\"\n", i, i)
+			make += fmt.Sprintf("    echo made-by-%d > \"$P/made%d.txt\"\n", i, i)
 		}
 		fmt.Fprintf(&b, "task %s(%s) {\n    echo begin%d >> $LOG\n%s    echo end%d >> $LOG\n}\n\n", c.name(i), strings.Join(args, ", "), i, make, i)
 	}
@@ -107,6 +114,9 @@ func genGraphBinBody(t *rapid.T) GraphBinCase {
 		for i := 0; i < n; i++ {
 			c.GlobDep = append(c.GlobDep, rapid.Bool().Draw(t, "globdep"))
 			c.Makes = append(c.Makes, rapid.IntRange(0, 2).Draw(t, "makes") == 0)
+		}
+		if rapid.IntRange(0, 3).Draw(t, "saboteur") == 0 {
+			c.Saboteur = 1 + rapid.IntRange(0, n-1).Draw(t, "saboteur_task")
 		}
 		np := rapid.IntRange(0, 5).Draw(t, "nprior")
 		for k := 0; k < np; k++ {
@@ -259,7 +269,9 @@ func execGraphBin(s *ev.Shard, b *sandbox.Box, c GraphBinCase) *rp.Fail {
 		}
 		return nil
 	}
-	if r.Exit != 0 {
+	sabotaged := c.Saboteur > 0 && closure[c.Saboteur-1]
+	cacheTrouble := sabotaged && r.Exit != 0 && strings.Contains(strings.ToLower(sandbox.Strip(r.Stderr)), "cache")
+	if r.Exit != 0 && !cacheTrouble {
 		return &rp.Fail{Sig: "unexpected-error", Size: size, Msg: fmt.Sprintf("%s: acyclic, fully defined graph but spok failed: %s", desc, sandbox.Strip(r.Stderr))}
 	}
 	// every task of the closure exactly once, as one begin/end pair, dependencies first
@@ -296,7 +308,7 @@ func execGraphBin(s *ev.Shard, b *sandbox.Box, c GraphBinCase) *rp.Fail {
 		return false
 	}
 	for i := range closure {
-		if _, ok := pos[i]; !ok && maySkip(i) {
+		if _, ok := pos[i]; !ok && (maySkip(i) || cacheTrouble) {
 			continue
 		}
 		if _, ok := pos[i]; !ok {
